@@ -196,25 +196,22 @@ def r5(cx):
                     f = tuple(p.fields())
                     for (l, pre) in tuples:
                         if p.l == l and f[:len(pre) + 1] == pre + ("1",): iface.add(st.lhs.l)
-            up_edges = set()
-            for b in body.blocks:
-                if b.cleanup or b.term.kind != "switch": continue
-                loc = b.term.discr.place.l if b.term.discr.place is not None and not b.term.discr.place.p else None
-                for _ in range(4):
-                    if loc is None: break
-                    ds = du.defs.get(loc, [])
-                    if any(k == "call" and d.callee.name == "is_some" and d.args and d.args[0].place is not None and any(l in iface for l in ref_chain(du, d.args[0].place.l)) for k, d in ds):
-                        for lab, dst in cfg.succ[b.idx]:
-                            if lab != 0: up_edges.add((b.idx, lab, dst))
-                        break
-                    nxt = [d for k, d in ds if k == "stmt" and d.kind == "assign" and d.rv == "use" and d.ops[0].place is not None]
-                    loc = nxt[0].ops[0].place.l if len(nxt) == 1 and len(ds) == 1 else None
-                c = switch_cond(body, du, b.term)
-                if c.kind == "discr" and c.place is not None and c.place.l in iface and not c.place.p:
-                    e = variant_edge(b.term, 1)
-                    if e: up_edges.add(e)
-            back = cfg.reach(h.target, blocked_nodes=reads - {h.bb}, blocked_edges=up_edges)
-            cx.check(h.bb not in back, "C06.R5", "%s:%s:handle#%d:no-spin" % (body.pkg, body.path, i), "%s %s" % (h.sp, body.path),
-                     "handle() can be re-entered without reading from the stream and without an upgrade having happened: for a message that ends at EOF without its NUL, handle() hands the same bytes back every time and the loop never ends (the connection is never closed, the worker never becomes idle)",
-                     note_ok="every cycle back into handle() passes a read or the upgrade edge (%d read blocks, %d upgrade edges)" % (len(reads), len(up_edges)))
+            from vlib.cfg import forward_taint, enumerate_paths, ref_base
+            from vlib.pathcond import literals
+            Ti = forward_taint(body, du, iface, no_flow=("=is_empty", "=is_some", "=is_none", "=len"))
+            from .C02 import remembered_iface
+            P = remembered_iface(body, du, h)
+            def upgraded_now(lit):
+                if lit.kind != "call" or not lit.obj.args or lit.obj.args[0].place is None: return False
+                a = lit.obj.args[0].place.l
+                if ref_base(du, a)[0] in P: return False                 # a statement about earlier steps, not about this one
+                if not any(l in Ti for l in ref_chain(du, a) + [ref_base(du, a)[0]]): return False
+                return (lit.obj.callee.name == "is_some" and lit.truth) or (lit.obj.callee.name == "is_none" and not lit.truth)
+            stops = (reads - {h.bb}) | {h.bb}
+            limit = []
+            paths = enumerate_paths(cfg, h.target, lambda blk: blk.idx in stops or blk.term.kind == "return", du=du, on_limit=lambda: limit.append(1))
+            spin = [p for p in paths if p[-1] == h.bb and not any(upgraded_now(l) for l in literals(body, p))]
+            cx.check(not spin and not limit, "C06.R5", "%s:%s:handle#%d:no-spin" % (body.pkg, body.path, i), "%s %s" % (h.sp, body.path),
+                     "handle() can be re-entered without reading from the stream and without an upgrade having happened (e.g. blocks %s): for a message that ends at EOF without its NUL, handle() hands the same bytes back every time and the loop never ends (the connection is never closed, the worker never becomes idle)" % (spin[0][:20] if spin else "path limit"),
+                     note_ok="every path back into handle() passes a read or the `upgrade just happened` test (%d read blocks, %d paths)" % (len(reads), len(paths)))
     cx.floor("C06.R5", "handle() call sites inside a loop", n, 3)
